@@ -247,6 +247,10 @@ __strft_card(
 		if (UNLIKELY(!s.cap)) {
 			casebit = 0x20;
 		}
+		if (UNLIKELY(bsz < 2U)) {
+			/* no room */
+			break;
+		}
 		if (d->h >= 12 && d->h < 24) {
 			buf[res++] = (char)('P' | casebit);
 		} else {
